@@ -209,6 +209,9 @@ func shrinkAndConfirm(p *propCfg, worker, dir string, cases []caseDoc) (caseDoc,
 		return nil, nil, "no witness reproduced"
 	}
 	deadline := time.Now().Add(90 * time.Second)
+	if want.Class == "hang" {
+		deadline = time.Now() // every candidate costs the hang timeout: report the witness as found
+	}
 	replays := 0
 	par := 8
 	for improved := true; improved && time.Now().Before(deadline); {
